@@ -116,6 +116,10 @@ def run_solver(repo, kinds, solve_for=('tidal',), nondimensionalize=False, slice
         if base == 'cf_build_solver':
             return make_solver(args)
         if base == 'cf_find_starting_conditions':
+            if isinstance(fn_, FuncRef):
+                names = [a_.arg for a_ in fn_.node.args.args]
+                bound = dict(zip(names, args)); bound.update(kwargs)
+                state.setdefault('start_calls', []).append(bound)
             out = args[12]
             lt, st_ = args[0], args[1]
             nsol = ts72.NUM_SOLS[('solid' if lt == 0 else 'liquid', bool(st_))]
@@ -187,6 +191,6 @@ def run_solver(repo, kinds, solve_for=('tidal',), nondimensionalize=False, slice
     r.oob = sorted({(name, ext, k, kind_, getattr(node, 'lineno', None) or 0) for name, ext, k, kind_, node in I.OOB_LOG}, key=lambda t_: tuple(str(x) for x in t_))
     so = state['solution_obj']
     r.solution_obj = so
-    r.iface_calls = state.get('iface_calls', []); r.redim_calls = state.get('redim_calls', []); r.build_calls = state.get('build_calls', [])
+    r.iface_calls = state.get('iface_calls', []); r.redim_calls = state.get('redim_calls', []); r.build_calls = state.get('build_calls', []); r.start_calls = state.get('start_calls', [])
     r.final_arrays = {nm: [arrs[nm].store.get(i) for i in range(total)] for nm in arrs}
     return r
